@@ -135,6 +135,24 @@ def run(ctx):
             world.reset_counters()
             if not proto._comm_issue:
                 raise core.MachineryError("could not put the manager into the repair-pending state")
+        if not pending and i % 2 == 0:
+            # a decodable transaction is signed first (whatever the code remembers from it must not leak
+            # into the answer to the undecodable one, however often that one is sent)
+            good = reqs.make(ctx.rng.choice(["sign_legacy", "sign_segwit"]), ctx.rng)[0]
+            mgr.handle_line(proto, json.dumps(good).encode())
+        retries = [] if pending else list(range(ctx.rng.choice([0, 1, 2])))
+        for _ in retries:
+            n1 = len(world.log)
+            o1 = mgr.handle_line(proto, json.dumps(req).encode())
+            c1 = (o1.reply() or {}).get("errorcode")
+            t1 = {"kind": "reject", "code": c1 if isinstance(c1, int) else 99,
+                  "contacted": any(e["ev"] in ("apdu", "open", "close") for e in world.log[n1:]),
+                  "tx": unsignx.tx_rec({"ver": 1, "ins": [], "outs": b"", "lock": b""}),
+                  "out": unsignx.tx_rec({"ver": 1, "ins": [], "outs": b"", "lock": b""}),
+                  "keep": [], "keepout": [], "parsed": False, "raw": [], "raw2": [], "rawv": []}
+            t1["id"] = len(traces) + 1
+            traces.append(t1)
+            info[t1["id"]] = {"src": "reject", "class": kind + "@sent-again", "tx": bad.hex()[:200]}
         n0 = len(world.log)
         o = mgr.handle_line(proto, json.dumps(req).encode())
         rep = o.reply() or {}
